@@ -1,10 +1,10 @@
 #!/bin/bash
-# usage: neutraltest.sh : for every /tmp/wt/nout-Cnn/patch_nK.diff not yet tested, confirms the suite line, runs the
+# usage: neutraltest.sh [Cnn ...] : for every /tmp/wt/nout-Cnn/patch_nK.diff not yet tested, confirms the suite line, runs the
 # property's quick check against a scratch worktree with the patch, stores it under /verif/neutral/Cnn-nK/ with the result.
 cd /verif
 BASE="29 failed, 180 passed, 1 skipped, 10 errors"
-for d in /tmp/wt/nout-C??; do
-  P=$(basename $d | sed 's/nout-//')
+for P in ${@:-$(ls -d /tmp/wt/nout-C?? | sed "s/.*nout-//")}; do
+  d=/tmp/wt/nout-$P
   for K in n1 n2 n3 n4; do
     [ -f $d/patch_$K.diff ] && [ -f $d/meta_$K.json ] || continue
     DEST=/verif/neutral/$P-$K
@@ -28,4 +28,3 @@ PY
     echo "$P-$K: $(echo $o | cut -c1-160)"
   done
 done
-./check regen >/dev/null 2>&1
